@@ -11,7 +11,8 @@ CONSTANTS MaxN, Shard, NShards
 
 Dirs     == <<"", "ca", "ca/sub", "x/y/z">>
 SuffixList == <<"yaml", "yml", "json", "YAML", "Yml", "JSON">>
-Layouts  == {"implicit", "explicit", "mixed", "explicitClash", "aliasIsBase", "sameBase", "sameBaseFixed", "dotted"}
+\* sameStem: files 1 and 2 have the same base name in the SAME directory and differ in the suffix only (an alias collision)
+Layouts  == {"implicit", "explicit", "mixed", "explicitClash", "aliasIsBase", "sameBase", "sameBaseFixed", "dotted", "sameStem"}
 
 \* base names as users choose them: they end in letters that also occur in the suffixes (an alias derived by trimming a
 \* character set instead of the suffix would come out shorter), and one is a prefix of another
@@ -20,7 +21,7 @@ Expl(i)  == CASE i = 1 -> "x1" [] i = 2 -> "x2" [] i = 3 -> "x3" [] i = 4 -> "x4
 Dotted(i) == CASE i = 1 -> "e1.v2" [] i = 2 -> "e2.yaml" [] i = 3 -> "e3.old" [] i = 4 -> "e.4" [] i = 5 -> "sam.l" [] OTHER -> "e6.y"
 
 BaseIn(l, i)  == IF l = "dotted" THEN Dotted(i)
-                 ELSE IF l \in {"sameBase", "sameBaseFixed"} /\ i = 2 THEN Base(1) ELSE Base(i)
+                 ELSE IF l \in {"sameBase", "sameBaseFixed", "sameStem"} /\ i = 2 THEN Base(1) ELSE Base(i)
 AliasIn(l, i) == CASE l = "explicit"                -> Expl(i)
                    [] l = "mixed"                   -> IF i % 2 = 1 THEN Expl(i) ELSE ""
                    [] l = "explicitClash"           -> IF i = 2 THEN Expl(1) ELSE Expl(i)
@@ -30,6 +31,7 @@ AliasIn(l, i) == CASE l = "explicit"                -> Expl(i)
 \* two files with the same base name are put in different directories
 DirIn(l, i, k) == IF l \in {"sameBase", "sameBaseFixed"} /\ i = 2 THEN Dirs[((k + 1) % 4) + 1]
                   ELSE IF l \in {"sameBase", "sameBaseFixed"} /\ i = 1 THEN Dirs[(k % 4) + 1]
+                  ELSE IF l = "sameStem" /\ i \in {1, 2} THEN Dirs[(k % 4) + 1]
                   ELSE Dirs[((i + k) % 4) + 1]
 
 EffAlias(l, i) == IF AliasIn(l, i) # "" THEN AliasIn(l, i) ELSE BaseIn(l, i)
